@@ -88,11 +88,14 @@ impl TzifOwned {
         } else {
             TzifOwned::parse64(name, header32, rest)?
         };
+        // This must come before fattening: it is a check on the data as given,
+        // and whether data is accepted must not depend on whether in-memory
+        // fattening is enabled.
+        tzif.verify_posix_time_zone_consistency()?;
         tzif.fatten();
         // This should come after fattening, because fattening may add new
         // transitions and we want to add civil datetimes to those.
         tzif.add_civil_datetimes_to_transitions();
-        tzif.verify_posix_time_zone_consistency()?;
         // Compute the checksum using the entire contents of the TZif data.
         let tzif_raw_len = (rest.as_ptr() as usize)
             .checked_sub(original.as_ptr() as usize)
